@@ -347,7 +347,7 @@ func (e *Env) Run(ops []Op) {
 func (e *Env) missing(op *Op) bool {
 	segMu.RLock()
 	defer segMu.RUnlock()
-	needSeg := map[string]bool{"persist": true, "close_file": true, "fields": true, "dict": true, "contains": true,
+	needSeg := map[string]bool{"persist": true, "persist_fail": true, "close_file": true, "fields": true, "dict": true, "contains": true,
 		"pl_open": true, "stored": true, "dv_open": true, "match": true, "stats": true, "stats_merge": true,
 		"observe": true, "layout": false}
 	if needSeg[op.Op] && e.segs[op.Seg] == nil {
@@ -431,6 +431,8 @@ func (e *Env) Do(op *Op) {
 		e.doArmGateClose(op)
 	case "wfaults":
 		e.doWFaults(op)
+	case "persist_fail":
+		e.doPersistFail(op)
 	case "watchdog":
 		e.watchdog = time.Duration(op.Watchdog) * time.Millisecond
 		e.emit(M{"ev": "skip", "op": "watchdog"})
@@ -1460,4 +1462,13 @@ func (e *Env) doSameObs(op *Op) {
 		}
 	}
 	e.emit(M{"ev": "same_obs", "segs": ds})
+}
+
+// doPersistFail persists into a writer that fails after op.N bytes. No claim is attached to
+// the call itself (C12 enumerates those); it exists so that later writes follow a failed one.
+func (e *Env) doPersistFail(op *Op) {
+	h := e.seg(op.Seg)
+	w := &faultWriter{limit: op.N, closeAt: -1}
+	e.call(func() { h.seg.WriteTo(w, nil) })
+	e.emit(M{"ev": "skip", "op": "persist_fail"})
 }
